@@ -24,30 +24,21 @@ def qualifies(read, min_mq):
     return True
 
 
-def load(path):
-    """[(name, contig, contig_length, flag-level read)] - kept as light tuples"""
-    out = []
-    with pysam.AlignmentFile(path) as f:
-        lengths = dict(zip(f.references, f.lengths))
-        for read in f.fetch(until_eof=True):
-            out.append({
-                'name': read.query_name,
-                'contig': read.reference_name,
-                'q': {mq: qualifies(read, mq) for mq in (None, 0, 1)} ,
-                'read': read,
-            })
-    return out, lengths
+def expected(path, bin_size, min_mq, key_tags=None, in_contig_only=True, weight=None):
+    """-> (matrix, n_qualifying_records, n_outside_contig)
 
-
-def expected(path, bin_size, min_mq, key_tags=None, in_contig_only=True):
-    """-> (matrix, n_qualifying_records, n_outside_contig)"""
+    weight: None, or (query_name, qualifies) -> multiplicity; only used to EXPLAIN a discrepancy
+    (what-if matrices such as "records of kind K counted twice"), never to decide one."""
     matrix = {}
     total = 0
     outside = 0
     with pysam.AlignmentFile(path) as f:
         lengths = dict(zip(f.references, f.lengths))
         for read in f.fetch(until_eof=True):
-            if not qualifies(read, min_mq):
+            w = 1 if qualifies(read, min_mq) else 0
+            if weight is not None:
+                w = weight(read.query_name, bool(w))
+            if not w:
                 continue
             site = int(read.get_tag('DS'))
             contig = read.reference_name
@@ -55,13 +46,13 @@ def expected(path, bin_size, min_mq, key_tags=None, in_contig_only=True):
                 outside += 1
                 if in_contig_only:
                     continue
-            total += 1
+            total += w
             cell = read.get_tag('SM')
             key = (contig, (site // bin_size) * bin_size)
             if key_tags:
                 key = tuple(read.get_tag(t) if read.has_tag(t) else None for t in key_tags) + key
             row = matrix.setdefault(key, {})
-            row[cell] = row.get(cell, 0) + 1
+            row[cell] = row.get(cell, 0) + w
     return matrix, total, outside
 
 
